@@ -38,7 +38,7 @@ def s_det(draw):
             "r": draw(st.one_of(st.floats(0.05, 1.0), st.just(1.0), st.just(1))), "T": draw(st.one_of(st.floats(1, 400), st.just(300.0), st.just(300))),
             "R": draw(st.one_of(st.floats(1, 1e4), st.just(50), st.just(50.0))), "bw": draw(st.floats(0.011, 0.449)),
             "idark": draw(st.one_of(st.just(0.0), st.just(10e-9), st.floats(0, 1e-6))), "Fn": draw(st.one_of(st.just(0), st.floats(0, 10))),
-            "sel": draw(st.sampled_from(SELECTIONS)), "amp": 10 ** draw(st.one_of(st.floats(-3, 0), st.floats(-3, 0), st.floats(-10, -3))), "cw": draw(st.booleans()), "pn_rel": 10 ** draw(st.floats(-3, -0.5))}
+            "sel": draw(st.sampled_from(SELECTIONS)), "amp": 10 ** draw(st.one_of(st.floats(-3, 0), st.floats(-3, 0), st.floats(-10, -3))), "cw": draw(st.sampled_from([False, False, True, "ripple", "ripple"])), "ripple": [draw(st.floats(-9, -5.3)), draw(st.floats(0.02, 0.49))], "pn_rel": 10 ** draw(st.floats(-3, -0.5))}
 
 
 def e_det(c):
@@ -50,6 +50,8 @@ def e_det(c):
     amp = c["amp"]
     if c["cw"]:
         E = amp * np.exp(1j * rs.uniform(0, 6, size=(npol, 1) if npol == 2 else 1)) * np.ones(shape)
+        if c["cw"] == "ripple":      # an almost unmodulated carrier: relative ripple 1e-9 .. 5e-6 at any frequency up to fs/2
+            E = E * (1 + 10 ** c["ripple"][0] * np.sin(2 * np.pi * c["ripple"][1] * np.arange(N) + 0.3))
     else:
         E = amp * (rs.standard_normal(shape) + 1j * rs.standard_normal(shape)) / np.sqrt(2)
     nz = amp * np.sqrt(c["pn_rel"]) * (rs.standard_normal(shape) + 1j * rs.standard_normal(shape)) / np.sqrt(2) if c["noise"] else None
@@ -72,7 +74,7 @@ def e_det(c):
     ref = lpf_ref(R * r * psum, BW, fs)
     scale = max(float(np.max(np.abs(ref))), 1e-300)
     check(np.max(np.abs(y.signal - ref)) <= 1e-10 * scale, "pd-signal!=LPF(R*r*|E|^2)", f"max err {np.max(np.abs(y.signal - ref)) / scale:.2e} relative")
-    if c["cw"]:
+    if c["cw"] is True:
         check(np.max(np.abs(y.signal - r * R * npol * amp ** 2)) <= 1e-10 * scale, "pd-cw!=r*P*R_load", f"{y.signal[:3]} vs {r * R * npol * amp ** 2}")
     # the signal part does not depend on the noise selection or the seed
     for s2 in SELECTIONS:
@@ -213,7 +215,7 @@ def e_det(c):
     g.verify()
     g.no_alias([("PD.signal", y.signal), ("PD.noise", y.noise)])
     g.release()
-    return {"nontrivial": npol == 2 and nz is not None, "classes": [f"pol{npol}", "optnoise" if nz is not None else "clean", c["sel"], "cw" if c["cw"] else "random", c["gv"]["form"]] + scale_cls}
+    return {"nontrivial": npol == 2 and nz is not None, "classes": [f"pol{npol}", "optnoise" if nz is not None else "clean", c["sel"], ("cw-ripple" if c["cw"] == "ripple" else "cw") if c["cw"] else "random", c["gv"]["form"]] + scale_cls}
 
 
 s_err = st.fixed_dictionaries({"what": st.sampled_from(["r0", "r-neg", "r>1", "r-type", "T-neg", "T-type", "R-neg", "R-type", "sel-type", "sel-unknown", "input"]),
